@@ -19,6 +19,11 @@ type Finding struct {
 	Commit   string `json:"commit,omitempty"`
 	Witness  any    `json:"witness,omitempty"`
 	What     string `json:"what"`
+	// Cases is the exact number of failing cases of this key on the tree the
+	// finding was recorded on, per tier. A complete run that sees MORE failing
+	// cases under the key reports a violation: a new defect that happens to
+	// fall under the key of a recorded one must not hide behind it.
+	Cases map[string]int `json:"cases,omitempty"`
 }
 
 // LoadFindings reads /verif/known_findings.json (never written at run time).
@@ -54,6 +59,7 @@ func Finish(id, level, tier string, cov map[string]any, assumptions []string, fa
 	}
 	sort.Strings(keys)
 	violations := 0
+	counts, _ := cov["failing_cases_by_key"].(map[string]int)
 	var knownSeen []string
 	var vioKeys []string
 	for _, k := range keys {
@@ -67,7 +73,14 @@ func Finish(id, level, tier string, cov map[string]any, assumptions []string, fa
 		if kf, ok := known[k]; ok {
 			fmt.Printf("KNOWN-FINDING: property=%s %s — %s\n", id, k, kf.What)
 			knownSeen = append(knownSeen, k)
-			continue
+			want, recorded := kf.Cases[tier]
+			have := counts[k]
+			if !recorded || have <= want || cov["exhaustive"] != true {
+				continue
+			}
+			k = fmt.Sprintf("%s [%d failing cases, %d recorded with the finding]", k, have, want)
+			fs = append([]Failure{}, fs...)
+			fs[0].Detail = fmt.Sprintf("the known finding %q covers %d failing cases on the tree it was recorded on; this run has %d: other inputs now fail in the same way.\n(the witnesses listed are the smallest failing cases of the key, old and new)\n%s", kf.Key, want, have, fs[0].Detail)
 		}
 		violations++
 		vioKeys = append(vioKeys, k)
